@@ -10,6 +10,8 @@
 #include <parmcb/detail/bfs.hpp>
 
 #include <functional>
+#include <iterator>
+#include <list>
 #include <numeric>
 
 #ifdef PARMCB_HAVE_TBB
@@ -250,6 +252,7 @@ public:
     typedef typename std::vector<Edge>::iterator EdgeVectorIt;
     typedef typename boost::property_traits<WeightMap>::value_type WeightType;
     typedef typename boost::property_map<Graph, boost::edge_weight_t>::type EdgeWeightMapType;
+    typedef std::list<std::list<Edge>> SpannerCycleList;
 
     BaseApproxSpannerAlgorithm(const Graph &g, const WeightMap &weight_map, const VertexIndexMapType& index_map,
             std::size_t k) :
@@ -278,7 +281,20 @@ public:
         EdgeWeightMapType spanner_weight_map = get(boost::edge_weight,
                 _spanner);
         ExactAlgorithm exact_mcb_algo;
-        _weight += exact_mcb_algo(_spanner, spanner_weight_map, out);
+        SpannerCycleList spanner_cycles;
+        exact_mcb_algo(_spanner, spanner_weight_map,
+                std::back_inserter(spanner_cycles));
+
+        // translate spanner cycles to edges of the input graph
+        for (const auto &spanner_cycle : spanner_cycles) {
+            std::list<Edge> cycle_edgelist;
+            for (const auto &spanner_e : spanner_cycle) {
+                Edge e = _edge_spanner_to_g.at(spanner_e);
+                cycle_edgelist.push_back(e);
+                _weight += boost::get(_weight_map, e);
+            }
+            *out++ = cycle_edgelist;
+        }
 
         // compute remaining cycles
         parmcb::detail::NonSpannerEdgesCycleBuilder<Graph, WeightMap,
